@@ -40,8 +40,9 @@ CHECKS["C19"] = {
 CHECKS["C18"] = {
     "text": "Proof (Verus, unbounded) of the namespace privilege decision on the real PrivilegeGroup / NamespacePrivilegeGroup: check == whitelisted && !blacklisted "
             "(blacklist wins, *_is_all switches, missing lists), default-namespace names are mapped to the one default key and then judged by the same predicate, "
-            "flag byte round trip.",
-    "note": "NOT decided: that each console handler calls the check before acting (actix handlers/macros are outside Verus) — a handler that forgets the check is not detected. "
+            "flag byte round trip. Config listing (unit configindex, real TenantIndex::query_config_page): a namespace the privilege does not permit contributes nothing to "
+            "the page or the total, for a query that names a tenant and for a query over all tenants.",
+    "note": "NOT decided: service / namespace listing filters (NamespaceIndex, ServiceIndex), and that each console handler calls the check before acting (actix handlers/macros are outside Verus) — a handler that forgets the check is not detected. "
             "bitflags! constants are modelled (glue.rs) and the macro text is re-checked on every run; HashSet::contains / key model per vstd + A-KEY.",
 }
 
@@ -104,9 +105,14 @@ CHECKS["C09"] = {
     "text": "Proof (Verus, unbounded) on the real ConfigValue / ConfigActor: after set_config the key serves md5(content) of the published content, with type/description of the "
             "publish when given; a publish that changes the content (or replaces a tmp/missing value) stores it and appends exactly one history entry with the given id, newest last, "
             "bounded to the last 100; a publish of identical content changes neither content nor history; every other key is untouched (whole-map frame); del_config removes the key "
-            "from store and listing index; the GET arm returns exactly the stored content/md5/type/description or not-found; listings only name stored keys and every published key is listed (wf).",
-    "note": "md5 uninterpreted; ConfigKey<->string round trip (format!/split) not under contract; TenantIndex set-view contract assumed in unit config (paging/total correctness of the "
-            "listing itself is NOT yet under contract: query_config_page is nested BTreeMap iteration, planned unit configindex); HTTP/gRPC layers not decided.",
+            "from store and listing index; the GET arm returns exactly the stored content/md5/type/description or not-found; listings only name stored keys and every published key is listed (wf). "
+            "Listing index (unit configindex, real TenantIndex / ConfigIndex): insert/remove change the key set by exactly the key (no empty group or tenant is kept); "
+            "query_config_page returns total = length of THE canonical match list (tenants, groups, data ids in increasing order) and page = its window [offset, offset+limit); "
+            "spec lemmas: that list holds every stored matching key of a permitted namespace exactly once and nothing else, and consecutive windows tile it.",
+    "note": "md5 uninterpreted; ConfigKey<->string round trip (format!/split) not under contract; unit config uses the TenantIndex set-view contract that unit configindex proves "
+            "(under A-ORD: lawful Ord of Arc<String>, A-BTSET-ORDER: BTreeSet iterates in increasing order, and a counter that does not overflow); what a search pattern matches "
+            "(ConfigQueryParam::match_group / match_data_id: deref coercions, str::rfind) is an uninterpreted predicate; ConfigActor::get_config_info_page (joins the page with the store) "
+            "and the HTTP/gRPC layers are not decided.",
 }
 CHECKS["C10"] = {
     "text": "Proof (Verus, unbounded) on the real ConfigListener / ConfigActor: add gives a long-poll a fresh registration that is pending and recorded under every key it listens to, "
